@@ -211,9 +211,10 @@ Proof.
   apply Nat.lt_succ_r. exact Hle.
 Qed.
 
-(* the gap that remains under the committed rule: version names are not registered, so a name
-   handed out LATER by get_unique_var can equal a version name — for exactly one counter value *)
-Theorem version_then_counter_collision_refuted :
+(* the gap that remained under the rule of /repo e4a742c (before 221667c): version names were not
+   registered, so a name handed out LATER by get_unique_var could equal a version name — for
+   exactly one counter value *)
+Theorem version_then_counter_collision_old_rule_refuted :
   ~ (forall avoid reserved var i tag k,
        (forall x, In x reserved -> In x avoid) ->
        fst (unique_var reserved (List.length reserved) tag k) <> version_name avoid var i).
@@ -223,11 +224,24 @@ Proof.
   - vm_compute. reflexivity.
 Qed.
 
-(* with the version names registered as reserved (proposed one-line repair) no later counter
-   name equals a version name, whatever the counter *)
+(* rule since /repo 221667c: every version name is registered as reserved; no later counter name
+   equals a version name, whatever the counter *)
 Theorem reserved_versions_never_collide avoid reserved var i tag k :
   In (version_name avoid var i) reserved ->
   fst (unique_var reserved (List.length reserved) tag k) <> version_name avoid var i.
 Proof.
   intros Hin Heq. apply (proj1 (unique_var_avoids reserved tag k)). rewrite Heq. exact Hin.
+Qed.
+
+(* MultiAssignTransformer since 221667c: pick the version name, register it *)
+Definition register_version (avoid reserved : list string) (var : string) (i : nat) : string * list string :=
+  let nm := version_name avoid var i in (nm, nm :: reserved).
+
+Theorem later_names_avoid_versions avoid reserved var i tag k :
+  let '(nm, reserved') := register_version avoid reserved var i in
+  fst (unique_var reserved' (List.length reserved') tag k) <> nm /\ ~ In nm avoid.
+Proof.
+  unfold register_version. split.
+  - apply reserved_versions_never_collide. left. reflexivity.
+  - apply version_name_avoids.
 Qed.
